@@ -627,7 +627,9 @@ class BPSK(Modulator):
         # noinspection PyTypeChecker
         if np.any(inputData > 1):
             raise ValueError("Input data can only contains '0's and '1's")
-        return 1 - 2 * inputData
+        # Convert to a signed integer type first. With bits stored in an
+        # unsigned type (np.uint8, for instance) `1 - 2` would wrap around
+        return 1 - 2 * np.asarray(inputData).astype(int)
 
     def demodulate(self, receivedData: np.ndarray) -> np.ndarray:
         """
